@@ -81,7 +81,7 @@ def run(ctx):
         "samples": [{"class": cl.keys[i], "value": values.render(a)[:200], "bytes": py[:120]} for i, a, py in meta[:: max(1, len(meta) // 6)][:6]],
     })
     for f in fails[:3]:
-        ctx.violation(f"{f['class']}: {f['what']}", dict(kind="c02", **f))
+        ctx.violation(f"{f['class']}: {f['what']}", {**f, "check": "c02"})
 
 
 def replay(doc):
